@@ -192,13 +192,17 @@ func mkField(base *Term, name string) *Term {
 	return &Term{Op: "field", Name: name, Args: []*Term{base}}
 }
 
-func mkPath(base *Term, path []string) *Term {
+func (fa *FuncAnalysis) mkPath(base *Term, path []string) *Term {
 	t := base
 	for _, p := range path {
 		if strings.HasPrefix(p, ".") {
 			t = mkField(t, p[1:])
 		} else { // "[idx]"
-			t = &Term{Op: "index", Args: []*Term{t, {Op: "const", Name: p[1 : len(p)-1]}}}
+			it := fa.idxTerm[p]
+			if it == nil {
+				it = &Term{Op: "const", Name: p[1 : len(p)-1]}
+			}
+			t = &Term{Op: "index", Args: []*Term{t, it}}
 		}
 	}
 	return t
